@@ -116,6 +116,14 @@ func (f *fz) pump(c *sigdrv.Client) {
 	f.after("serving the action queue", c, res, before)
 }
 
+func mustJSON(m map[string]interface{}) []byte {
+	b, err := json.Marshal(m)
+	if err != nil {
+		return []byte("?")
+	}
+	return b
+}
+
 func abbreviate(js []byte) string {
 	s := string(js)
 	if len(s) > 300 {
@@ -139,6 +147,16 @@ func (f *fz) str() string {
 	case 0:
 		return []string{"a", "b", "c0", "c1", "c2", "c3", "up1", "whip", "oper", "RECORDING", "Server"}[r.Intn(11)]
 	case 1:
+		// an id the server mentioned, or a live stream of some client
+		if r.Bool() {
+			var ups []string
+			for _, c := range f.cs {
+				ups = append(ups, c.UpIds()...)
+			}
+			if len(ups) > 0 {
+				return ups[r.Intn(len(ups))]
+			}
+		}
 		if len(f.ids) > 0 {
 			return f.ids[r.Intn(len(f.ids))]
 		}
@@ -523,6 +541,7 @@ func corpus(t *tr.Trace, r *tr.Rand) {
 func runFuzz(t *tr.Trace, r *tr.Rand, n int) {
 	sigdrv.Quiet()
 	corpus(t, r)
+	connIDs(t, r)
 	for i := 0; i < n; i++ {
 		f := newFz(t, r, "fuzz")
 		ids := []string{"c0", "c1", "c2", "c3"}
